@@ -22,6 +22,7 @@ type canon struct {
 	rename func(string) string
 	// names overrides the rendering of particular variables (roles such as "the iterator", "the iterated map")
 	names map[types.Object]string
+	busy  map[*types.Var]bool
 }
 
 // declaringDef: the initialiser in the statement that declares v (`v := e` / `var v = e`), nil if it has none.
@@ -56,8 +57,17 @@ func newCanon(f *core.Fn) *canon {
 
 func (c *canon) soleAssign(v *types.Var) ast.Expr {
 	var rhs ast.Expr
+	var all []ast.Expr
 	n := 0
+	seen := map[ast.Node]bool{} // an expanded helper contributes the same statement nodes at each of its call sites
 	core.Walk(c.fn.Decl.Body, true, func(x ast.Node) bool {
+		if seen[x] {
+			return false
+		}
+		switch x.(type) {
+		case *ast.AssignStmt, *ast.ValueSpec, *ast.RangeStmt, *ast.IncDecStmt:
+			seen[x] = true
+		}
 		switch a := x.(type) {
 		case *ast.AssignStmt:
 			for i, l := range a.Lhs {
@@ -65,8 +75,10 @@ func (c *canon) soleAssign(v *types.Var) ast.Expr {
 					n++
 					if len(a.Rhs) == len(a.Lhs) {
 						rhs = a.Rhs[i]
+						all = append(all, a.Rhs[i])
 					} else {
 						rhs = nil
+						all = append(all, nil)
 					}
 				}
 			}
@@ -91,6 +103,28 @@ func (c *canon) soleAssign(v *types.Var) ast.Expr {
 	if n == 1 {
 		return rhs
 	}
+	// several definitions that are copies of one statement (a helper expanded at more than one call site, its parameters
+	// replaced by the same arguments): still one definition
+	if n > 1 && len(all) == n && !c.busy[v] {
+		if c.busy == nil {
+			c.busy = map[*types.Var]bool{}
+		}
+		c.busy[v] = true
+		defer delete(c.busy, v)
+		first := ""
+		for i, e := range all {
+			if e == nil {
+				return nil
+			}
+			r := c.render(e, 3)
+			if i == 0 {
+				first = r
+			} else if r != first {
+				return nil
+			}
+		}
+		return all[0]
+	}
 	return nil
 }
 
@@ -107,6 +141,14 @@ func (c *canon) render(e ast.Expr, depth int) string {
 		o := c.info.Uses[x]
 		if o == nil {
 			o = c.info.Defs[x]
+		}
+		if _, isNil := o.(*types.Nil); isNil {
+			if tv, ok := c.info.Types[x]; ok && tv.Type != nil {
+				if _, untyped := tv.Type.(*types.Basic); !untyped {
+					return "zero<" + types.TypeString(tv.Type, func(*types.Package) string { return "" }) + ">"
+				}
+			}
+			return "nil"
 		}
 		if v, ok := o.(*types.Var); ok && !v.IsField() && v.Pkg() != nil && v.Parent() != v.Pkg().Scope() {
 			if nm, ok := c.names[v]; ok {
@@ -141,6 +183,10 @@ func (c *canon) render(e ast.Expr, depth int) string {
 				if call, idx := defCall(c.info, c.fn.Decl.Body, v); call != nil {
 					return fmt.Sprintf("res%d<%s>", idx, c.render(call, depth+1))
 				}
+				if c.neverAssigned(v) {
+					// `var x T` that only ever holds its zero value
+					return "zero<" + types.TypeString(v.Type(), func(*types.Package) string { return "" }) + ">"
+				}
 			}
 			return "local:" + x.Name
 		}
@@ -161,9 +207,9 @@ func (c *canon) render(e ast.Expr, depth int) string {
 		}
 		return c.render(x.Fun, depth) + "(" + strings.Join(as, ",") + ")"
 	case *ast.IndexExpr:
-		return c.render(x.X, depth) + "[" + c.render(x.Index, depth) + "]"
+		return c.render(derefAddr(x.X), depth) + "[" + c.render(x.Index, depth) + "]"
 	case *ast.SliceExpr:
-		return c.render(x.X, depth) + "[" + c.render(x.Low, depth) + ":" + c.render(x.High, depth) + "]"
+		return c.render(derefAddr(x.X), depth) + "[" + c.render(x.Low, depth) + ":" + c.render(x.High, depth) + "]"
 	case *ast.UnaryExpr:
 		return x.Op.String() + c.render(x.X, depth)
 	case *ast.StarExpr:
@@ -175,6 +221,13 @@ func (c *canon) render(e ast.Expr, depth int) string {
 		}
 		return "(" + l + x.Op.String() + r + ")"
 	case *ast.CompositeLit:
+		if len(x.Elts) == 0 {
+			if tv, ok := c.info.Types[x]; ok && tv.Type != nil {
+				if _, isStruct := tv.Type.Underlying().(*types.Struct); isStruct {
+					return "zero<" + types.TypeString(tv.Type, func(*types.Package) string { return "" }) + ">"
+				}
+			}
+		}
 		var es []string
 		for _, el := range x.Elts {
 			es = append(es, c.render(el, depth))
@@ -255,4 +308,51 @@ func (c *canon) cond(e ast.Expr, truth bool) string {
 		}
 	}
 	return c.str(e) + map[bool]string{true: ":T", false: ":F"}[truth]
+}
+
+// neverAssigned: v is declared without initialiser and never assigned, incremented, ranged into or address-taken.
+func (c *canon) neverAssigned(v *types.Var) bool {
+	n := 0
+	declared := false
+	core.Walk(c.fn.Decl.Body, true, func(x ast.Node) bool {
+		switch a := x.(type) {
+		case *ast.ValueSpec:
+			for i, nm := range a.Names {
+				if c.info.Defs[nm] == types.Object(v) {
+					declared = true
+					if i < len(a.Values) {
+						n++
+					}
+				}
+			}
+		case *ast.AssignStmt:
+			for _, l := range a.Lhs {
+				if core.ObjOf(c.info, l) == types.Object(v) {
+					n++
+				}
+			}
+		case *ast.IncDecStmt:
+			if core.ObjOf(c.info, a.X) == types.Object(v) {
+				n++
+			}
+		case *ast.RangeStmt:
+			if core.ObjOf(c.info, a.Key) == types.Object(v) || core.ObjOf(c.info, a.Value) == types.Object(v) {
+				n++
+			}
+		case *ast.UnaryExpr:
+			if a.Op == token.AND && core.ObjOf(c.info, a.X) == types.Object(v) {
+				n++
+			}
+		}
+		return true
+	})
+	return declared && n == 0
+}
+
+// derefAddr: (&x)[i] is x[i] (indexing / slicing through a pointer to an array dereferences it).
+func derefAddr(e ast.Expr) ast.Expr {
+	if u, ok := ast.Unparen(e).(*ast.UnaryExpr); ok && u.Op == token.AND {
+		return u.X
+	}
+	return e
 }
